@@ -107,7 +107,7 @@ def run_case(c, d):
             got, ref = 1.0 / got, 1.0 / ref
         tol = 1e-6
     else:
-        tol = E.rel_tol(cls)
+        tol = E.cond_tol(cls, ref, E.rel_tol(cls))
     name = {'shift': 'shift:two-sided-estimate-rotates-by-m-bins', 'conj': 'conjugation:mirrors-bin-k-to-minus-k',
             'half': 'real:one-sided-equals-2x-first-half-of-complex-declared-estimate',
             'reverse': 'time-reversal:same-spectrum'}[rel]
